@@ -2805,3 +2805,200 @@ Proof.
   split; [vm_compute; reflexivity|].
   intros e [<-|[<-|[]]]; eexists; split; vm_compute; reflexivity.
 Qed.
+
+(* ====================================================================== *)
+(* Part I.  Keystores: nothing is outside - every stream the reader accepts is the writing of its entries *)
+
+Lemma take_drop_id : forall (A : Type) k (l : list A), take k l ++ drop k l = l.
+Proof. induction k as [|k IH]; intros [|x l]; cbn [take drop app]; try reflexivity. now rewrite IH. Qed.
+
+Lemma take_length_le : forall (A : Type) k (l : list A), (k <= length l)%nat -> length (take k l) = k.
+Proof. induction k as [|k IH]; intros [|x l] H; cbn [take length] in *; try lia. rewrite IH; lia. Qed.
+
+Lemma bytes_ok_app : forall a b, bytes_ok (a ++ b) = bytes_ok a && bytes_ok b.
+Proof. intros. unfold bytes_ok. apply forallb_app. Qed.
+
+Lemma be_acc_snoc : forall b x acc, be_to_N_acc acc (b ++ [x]) = be_to_N_acc acc b * 256 + x.
+Proof. intros. rewrite be_acc_app. reflexivity. Qed.
+
+(* big-endian decoding of w octets is inverted by the w-octet encoder *)
+Lemma N_to_be_of_be : forall b, bytes_ok b = true -> N_to_be (length b) (be_to_N b) = b /\ be_to_N b < 256 ^ N.of_nat (length b).
+Proof.
+  unfold be_to_N. induction b as [|x b IH] using rev_ind; intros H.
+  - split; [reflexivity|cbn; lia].
+  - rewrite bytes_ok_app in H. apply andb_prop in H as [Hb Hx]. unfold bytes_ok in Hx. cbn [forallb] in Hx. unfold byte_ok in Hx.
+    destruct (IH Hb) as [I1 I2]. rewrite be_acc_snoc. rewrite app_length. cbn [length].
+    replace (length b + 1)%nat with (S (length b)) by lia. cbn [N_to_be].
+    replace ((be_to_N_acc 0 b * 256 + x) / 256) with (be_to_N_acc 0 b) by (apply N.div_unique with x; lia).
+    replace ((be_to_N_acc 0 b * 256 + x) mod 256) with x by (apply N.mod_unique with (be_to_N_acc 0 b); lia).
+    rewrite I1. split; [reflexivity|]. rewrite Nat2N.inj_succ, N.pow_succ_r'. lia.
+Qed.
+
+(* what a successful read says about the bytes in front of the reader *)
+Lemma read_n_inv : forall n r b r', read_n n r = Ok (b, r') ->
+  fst r = b ++ fst r' /\ N.of_nat (length b) = n.
+Proof.
+  intros n r b r' H. unfold read_n in H. destruct (N.of_nat (length (fst r)) <? n) eqn:E; [discriminate|].
+  injection H as <- <-. cbn [fst]. split; [now rewrite take_drop_id|]. rewrite take_length_le; lia.
+Qed.
+
+Lemma read_u_inv : forall w r v r', bytes_ok (fst r) = true -> read_u (N.of_nat w) r = Ok (v, r') ->
+  fst r = N_to_be w v ++ fst r' /\ v < 256 ^ N.of_nat w /\ bytes_ok (fst r') = true.
+Proof.
+  intros w r v r' Hok H. unfold read_u in H. destruct (read_n (N.of_nat w) r) as [[b r1]|e|e] eqn:E; try discriminate.
+  injection H as <- <-. destruct (read_n_inv _ _ _ _ E) as [E1 E2]. apply Nat2N.inj in E2.
+  rewrite E1 in Hok. rewrite bytes_ok_app in Hok. apply andb_prop in Hok as [Hb Hr].
+  destruct (N_to_be_of_be b Hb) as [I1 I2]. rewrite E2 in I1, I2. rewrite I1. auto.
+Qed.
+
+Lemma read_n_ok : forall n r b r', bytes_ok (fst r) = true -> read_n n r = Ok (b, r') -> bytes_ok b = true /\ bytes_ok (fst r') = true.
+Proof.
+  intros n r b r' Hok H. destruct (read_n_inv _ _ _ _ H) as [E _]. rewrite E, bytes_ok_app in Hok. now apply andb_prop in Hok.
+Qed.
+
+Lemma read_string_inv : forall r s r', bytes_ok (fst r) = true -> read_string r = Ok (s, r') ->
+  fst r = enc_string s ++ fst r' /\ N.of_nat (length s) < 65536 /\ bytes_ok (fst r') = true.
+Proof.
+  intros r s r' Hok H. unfold read_string in H. destruct (read_u 2 r) as [[l r1]|e|e] eqn:E; try discriminate.
+  destruct (read_u_inv 2 r l r1 Hok E) as (E1 & E2 & Hok1).
+  destruct (read_n_inv _ _ _ _ H) as [E3 E4]. destruct (read_n_ok _ _ _ _ Hok1 H) as [_ Hok2].
+  unfold enc_string. rewrite E4, E1, E3. rewrite <- app_assoc. split; [reflexivity|]. split; [exact E2|exact Hok2].
+Qed.
+
+Lemma bytes_ok_drop : forall k l, bytes_ok l = true -> bytes_ok (drop k l) = true.
+Proof. intros k l H. unfold bytes_ok in *. now apply PP.forallb_drop. Qed.
+
+Lemma read_certs_inv : forall fuel count r cs r', bytes_ok (fst r) = true -> read_certs fuel count r = Ok (cs, r') ->
+  fst r = concat (map enc_cert cs) ++ fst r' /\ N.of_nat (length cs) = count /\ forallb cert_ok cs = true /\ bytes_ok (fst r') = true.
+Proof.
+  induction fuel as [|f IH]; intros count r cs r' Hok H; cbn [read_certs] in H.
+  - destruct (count =? 0) eqn:E0; [|discriminate]. injection H as <- <-. cbn. repeat split; try assumption. lia.
+  - destruct (count =? 0) eqn:E0; [injection H as <- <-; cbn; repeat split; try assumption; lia|].
+    destruct (read_string r) as [[t r1]|e|e] eqn:E1; try discriminate.
+    destruct (read_string_inv _ _ _ Hok E1) as (S1 & S2 & Hok1).
+    destruct (read_u 4 r1) as [[l r2]|e|e] eqn:E2; try discriminate.
+    destruct (read_u_inv 4 r1 l r2 Hok1 E2) as (U1 & U2 & Hok2).
+    destruct (read_n l r2) as [[b r3]|e|e] eqn:E3; try discriminate.
+    destruct (read_n_inv _ _ _ _ E3) as [N1 N2]. destruct (read_n_ok _ _ _ _ Hok2 E3) as [_ Hok3].
+    destruct (read_certs f (count - 1) r3) as [[cs' r4]|e|e] eqn:E4; try discriminate.
+    injection H as <- <-. destruct (IH _ _ _ _ Hok3 E4) as (I1 & I2 & I3 & I4).
+    cbn [map concat length forallb]. unfold enc_cert at 1. cbn [jc_type jc_bytes].
+    rewrite S1, U1, N1, I1, N2. rewrite <- ?app_assoc. split; [reflexivity|]. split; [lia|]. split; [|exact I4].
+    rewrite I3, andb_true_r. unfold cert_ok. cbn [jc_type jc_bytes]. change (256 ^ N.of_nat 4) with 4294967296 in U2. lia.
+Qed.
+
+Section JksComplete.
+  Variable secret : N -> bytes -> result (N * bytes * bytes).
+
+  Lemma read_entry_inv : forall fuel r e r', bytes_ok (fst r) = true -> read_entry secret fuel r = Ok (e, r') ->
+    exists blob, fst r = enc_entry (e, blob) ++ fst r' /\ jentry_ok e = true /\ bytes_ok (fst r') = true.
+  Proof.
+    intros fuel r e r' Hok H. unfold read_entry in H.
+    destruct (read_u 4 r) as [[typ r1]|x|x] eqn:E1; try discriminate.
+    destruct (read_u_inv 4 r typ r1 Hok E1) as (T1 & T2 & Hok1). change (256 ^ N.of_nat 4) with 4294967296 in T2.
+    destruct (read_string r1) as [[alias r2]|x|x] eqn:E2; try discriminate.
+    destruct (read_string_inv _ _ _ Hok1 E2) as (A1 & A2 & Hok2).
+    destruct (read_u 8 r2) as [[date r3]|x|x] eqn:E3; try discriminate.
+    destruct (read_u_inv 8 r2 date r3 Hok2 E3) as (D1 & D2 & Hok3). change (256 ^ N.of_nat 8) with 18446744073709551616 in D2.
+    assert (Hhead : fst r = N_to_be 4 typ ++ enc_string alias ++ N_to_be 8 date ++ fst r3).
+    { rewrite T1, A1, D1. now rewrite <- ?app_assoc. }
+    assert (Hpre : (typ <? 4294967296) && (N.of_nat (length alias) <? 65536) && (date <? 18446744073709551616) = true) by lia.
+    destruct (typ =? 1) eqn:Et1.
+    - apply N.eqb_eq in Et1. subst typ.
+      destruct (read_u 4 r3) as [[l r4]|x|x] eqn:E4; try discriminate.
+      destruct (read_u_inv 4 r3 l r4 Hok3 E4) as (L1 & L2 & Hok4). change (256 ^ N.of_nat 4) with 4294967296 in L2.
+      destruct (read_n l r4) as [[key r5]|x|x] eqn:E5; try discriminate.
+      destruct (read_n_inv _ _ _ _ E5) as [K1 K2]. destruct (read_n_ok _ _ _ _ Hok4 E5) as [_ Hok5].
+      destruct (read_u 4 r5) as [[cc r6]|x|x] eqn:E6; try discriminate.
+      destruct (read_u_inv 4 r5 cc r6 Hok5 E6) as (C1 & C2 & Hok6). change (256 ^ N.of_nat 4) with 4294967296 in C2.
+      destruct (read_certs fuel cc r6) as [[cs r7]|x|x] eqn:E7; try discriminate.
+      destruct (read_certs_inv _ _ _ _ _ Hok6 E7) as (R1 & R2 & R3 & Hok7).
+      injection H as <- <-. exists []. split; [|split; [|exact Hok7]].
+      + unfold enc_entry. cbn [fst snd je_type je_alias je_date je_key je_certs]. change (1 =? 1) with true. cbv iota.
+        rewrite Hhead, L1, K1, C1, R1, K2, R2. now rewrite <- ?app_assoc.
+      + unfold jentry_ok. cbn [je_type je_alias je_date je_key je_seal je_certs]. change (1 =? 1) with true. cbv iota.
+        rewrite Hpre, R3. cbn [is_nil andb]. lia.
+    - destruct (typ =? 2) eqn:Et2.
+      + apply N.eqb_eq in Et2. subst typ.
+        destruct (read_certs fuel 1 r3) as [[cs r7]|x|x] eqn:E7; try discriminate.
+        destruct (read_certs_inv _ _ _ _ _ Hok3 E7) as (R1 & R2 & R3 & Hok7).
+        injection H as <- <-. exists []. split; [|split; [|exact Hok7]].
+        * unfold enc_entry. cbn [fst snd je_type je_alias je_date je_key je_certs]. change (2 =? 1) with false. change (2 =? 2) with true. cbv iota.
+          rewrite Hhead, R1. now rewrite <- ?app_assoc.
+        * unfold jentry_ok. cbn [je_type je_alias je_date je_key je_seal je_certs]. change (2 =? 1) with false. change (2 =? 2) with true. cbv iota.
+          rewrite Hpre. cbn [is_nil andb]. destruct cs as [|c [|c2 cs]]; cbn [length] in R2; try lia.
+          cbn [forallb] in R3. now rewrite andb_true_r in R3.
+      + destruct (typ =? 3) eqn:Et3.
+        * apply N.eqb_eq in Et3. subst typ.
+          destruct (secret (snd r3) (fst r3)) as [[[n seal] content]|x|x] eqn:Es; try discriminate.
+          injection H as <- <-. exists (take (N.to_nat n) (fst r3)). split; [|split].
+          -- unfold enc_entry. cbn [fst snd je_type je_alias je_date je_key je_certs]. change (3 =? 1) with false. change (3 =? 2) with false. change (3 =? 3) with true. cbv iota.
+             rewrite Hhead. rewrite <- ?app_assoc. now rewrite take_drop_id.
+          -- unfold jentry_ok. cbn [je_type je_alias je_date je_key je_seal je_certs]. change (3 =? 1) with false. change (3 =? 2) with false. change (3 =? 3) with true. cbv iota.
+             rewrite Hpre. reflexivity.
+          -- cbn [fst]. now apply bytes_ok_drop.
+        * injection H as <- <-. exists []. split; [|split; [|exact Hok3]].
+          -- unfold enc_entry. cbn [fst snd je_type je_alias je_date je_key je_certs]. rewrite Et1, Et2, Et3. rewrite Hhead. now rewrite <- ?app_assoc.
+          -- unfold jentry_ok. cbn [je_type je_alias je_date je_key je_seal je_certs]. rewrite Et1, Et2, Et3, Hpre. reflexivity.
+  Qed.
+
+  Lemma read_entries_inv : forall fuel count r es r', bytes_ok (fst r) = true -> read_entries secret fuel count r = Ok (es, r') ->
+    exists ebs, map fst ebs = es /\ fst r = concat (map enc_entry ebs) ++ fst r' /\ N.of_nat (length ebs) = count
+      /\ forallb (fun eb => jentry_ok (fst eb)) ebs = true /\ bytes_ok (fst r') = true.
+  Proof.
+    induction fuel as [|f IH]; intros count r es r' Hok H; cbn [read_entries] in H.
+    - destruct (count =? 0) eqn:E0; [|discriminate]. injection H as <- <-. exists []. cbn. repeat split; try assumption. lia.
+    - destruct (count =? 0) eqn:E0; [injection H as <- <-; exists []; cbn; repeat split; try assumption; lia|].
+      destruct (read_entry secret (S (length (fst r))) r) as [[e r1]|x|x] eqn:E1; try discriminate.
+      destruct (read_entry_inv _ _ _ _ Hok E1) as (blob & B1 & B2 & Hok1).
+      destruct (read_entries secret f (count - 1) r1) as [[es' r2]|x|x] eqn:E2; try discriminate.
+      injection H as <- <-. destruct (IH _ _ _ _ Hok1 E2) as (ebs & I1 & I2 & I3 & I4 & I5).
+      exists ((e, blob) :: ebs). cbn [map fst concat length forallb]. rewrite I1, B1, I2, B2, I4. rewrite <- ?app_assoc.
+      repeat split; try assumption. lia.
+  Qed.
+
+  (* the keystore codec, converse direction: a stream of octets that InsecureParse accepts IS the writing of the entries
+     it returns (with, for every SecretKeyEntry, the bytes the sealed-object reader consumed) - nothing the reader
+     accepts is outside the domain of C06_jks *)
+  Theorem jks_parse_complete : forall data es, bytes_ok data = true -> jks_parse secret data = Ok es ->
+    exists magic version ebs mac,
+      magic_ok magic /\ version < 4294967296 /\ N.of_nat (length ebs) < 4294967296 /\ length mac = 20%nat /\
+      forallb (fun eb => jentry_ok (fst eb)) ebs = true /\ map fst ebs = es /\
+      data = jks_encode magic version ebs mac.
+  Proof.
+    intros data es Hok H. unfold jks_parse in H.
+    destruct (Nat.ltb (length data) 4); [discriminate|].
+    destruct (prefix_of jks_magic data || prefix_of jceks_magic data) eqn:Em; [|discriminate].
+    destruct (read_n 12 (data, 0)) as [[hdr r1]|x|x] eqn:E1; try discriminate.
+    destruct (read_n_inv _ _ _ _ E1) as [H1 H2]. destruct (read_n_ok 12 (data, 0) hdr r1 Hok E1) as [Hokh Hok1]. cbn [fst] in H1.
+    destruct (read_entries secret (S (length data)) (be_to_N (drop 8 hdr)) r1) as [[es' r2]|x|x] eqn:E2; try discriminate.
+    destruct (read_entries_inv _ _ _ _ _ Hok1 E2) as (ebs & I1 & I2 & I3 & I4 & Hok2).
+    destruct (read_n 20 r2) as [[mac r3]|x|x] eqn:E3; try discriminate.
+    destruct (read_n_inv _ _ _ _ E3) as [M1 M2].
+    destruct (fst r3) eqn:E4; [|discriminate]. injection H as <-.
+    (* the header: magic, version, count *)
+    assert (Hl : length hdr = 12%nat) by lia.
+    destruct hdr as [|a0 [|a1 [|a2 [|a3 [|b0 [|b1 [|b2 [|b3 [|c0 [|c1 [|c2 [|c3 [|z hdr]]]]]]]]]]]]]; try discriminate Hl.
+    cbn [drop] in *.
+    assert (Hmagic : magic_ok [a0; a1; a2; a3]).
+    { rewrite H1 in Em. cbn [app prefix_of jks_magic jceks_magic] in Em. unfold magic_ok, jks_magic, jceks_magic.
+      apply orb_prop in Em as [Em|Em]; repeat (apply andb_prop in Em as [? Em]);
+        repeat match goal with Hx : (_ =? _) = true |- _ => apply N.eqb_eq in Hx end; subst; [left|right]; reflexivity. }
+    change [a0; a1; a2; a3; b0; b1; b2; b3; c0; c1; c2; c3] with ([a0; a1; a2; a3] ++ [b0; b1; b2; b3] ++ [c0; c1; c2; c3]) in Hokh.
+    rewrite !bytes_ok_app in Hokh. apply andb_prop in Hokh as [_ Hokh]. apply andb_prop in Hokh as [Hv Hc].
+    destruct (N_to_be_of_be _ Hv) as [V1 V2]. destruct (N_to_be_of_be _ Hc) as [C1 C2]. cbn [length] in V1, V2, C1, C2.
+    exists [a0; a1; a2; a3], (be_to_N [b0; b1; b2; b3]), ebs, mac.
+    split; [exact Hmagic|]. split; [exact V2|]. split; [rewrite I3; exact C2|]. split; [lia|]. split; [exact I4|]. split; [exact I1|].
+    unfold jks_encode. rewrite V1, I3, C1. rewrite H1, I2, M1. rewrite ?E4, ?app_nil_r. reflexivity.
+  Qed.
+End JksComplete.
+
+(* every accepted keystore is listed entry by entry, in stream order *)
+Lemma keystore_file_accepted : forall secret cert_info enc_name desc data es,
+  jks_parse secret data = Ok es ->
+  (forall e, In e es -> certs_calm cert_info (je_certs e)) ->
+  keystore_file cert_info enc_name true secret desc data = Ok (Info desc [] (map (entry_child cert_info enc_name) es)).
+Proof.
+  intros secret cert_info enc_name desc data es Hp Hcalm. unfold keystore_file. rewrite Hp.
+  now rewrite jks_entries_total.
+Qed.
